@@ -214,10 +214,21 @@ var retags = []struct {
 	{"retag-SET", 0x31}, {"retag-[0]", 0x80}, {"retag-[1]", 0x81}, {"retag-NULL", 0x05},
 }
 
+var leafRetags = []struct {
+	name string
+	tag  byte
+	unit int
+}{
+	{"retag-BOOLEAN", 0x01, 1}, {"retag-OID", 0x06, 1}, {"retag-ENUMERATED", 0x0a, 1}, {"retag-UTF8String", 0x0c, 1},
+	{"retag-NumericString", 0x12, 1}, {"retag-PrintableString", 0x13, 1}, {"retag-T61String", 0x14, 1}, {"retag-IA5String", 0x16, 1},
+	{"retag-UTCTime", 0x17, 1}, {"retag-GeneralizedTime", 0x18, 1}, {"retag-VisibleString", 0x1a, 1},
+	{"retag-UniversalString", 0x1c, 4}, {"retag-BMPString", 0x1e, 2},
+}
+
 // TLVMenuSize is the number of operators applied to each node by TLVSingles
 // (swap-next only applies to nodes with a following sibling; retag to the
 // node's own tag is skipped).
-const TLVMenuSize = 29
+const TLVMenuSize = 44 // 29 for constructed nodes, +15 leaf retags for primitive ones
 
 // TLVCoreMenuSize is the size of the reduced menu used for pairs.
 const TLVCoreMenuSize = 12
@@ -266,6 +277,24 @@ func mutants(tag, c []byte, level int, emit func(op string, repl []byte) bool) b
 		}
 		if !emit(r.name, enc([]byte{t}, c)) {
 			return false
+		}
+	}
+	if !core && tag[0]&0x20 == 0 {
+		// primitive leaf: every other primitive universal type that has its own content rules
+		// (string alphabets, 2- and 4-byte units, time formats, OID sub-identifiers, BOOLEAN/ENUMERATED)
+		for _, r := range leafRetags {
+			if len(tag) == 1 && tag[0] == r.tag {
+				continue
+			}
+			if !emit(r.name, enc([]byte{r.tag}, c)) {
+				return false
+			}
+			if r.unit > 1 && len(c) > 0 {
+				// the other residue of the content length modulo the unit size
+				if !emit(r.name+"-trunc1", enc([]byte{r.tag}, c[:len(c)-1])) {
+					return false
+				}
+			}
 		}
 	}
 	if !emit("len+1", cat(tag, Len(len(c)+1), c)) {
